@@ -22,6 +22,8 @@ type RunResult struct {
 	Inconclusive string   `json:"inconclusive,omitempty"`
 	Snapshots    int      `json:"snapshots"`
 	Trace        string   `json:"trace"`
+	TimingChecks int      `json:"timing_checks"`
+	WorstLateMs  int64    `json:"worst_late_ms"`
 	Shapes       map[string]int `json:"shapes"`
 }
 
@@ -37,6 +39,8 @@ func personalities(mode string, rng *rand.Rand) int {
 		return []int{4, 4, 1, 0}[rng.Intn(4)]
 	case "churn":
 		return []int{0, 1, 3}[rng.Intn(3)]
+	case "timing":
+		return []int{1, 2, 5, 5}[rng.Intn(4)]
 	case "bytes":
 		return []int{0, 1}[rng.Intn(2)]
 	}
@@ -224,6 +228,8 @@ func runScenario(sc Scenario, dir string) ([]verif.Event, *RunResult) {
 		}
 	}
 	r.ledger(evs, drained)
+	res.TimingChecks = r.timingLedger(evs)
+	res.WorstLateMs = r.worstLate / 1000000
 	res.Fails = r.fails
 	if res.Inconclusive == "" {
 		res.Inconclusive = r.incon
